@@ -501,3 +501,58 @@ def tqdm_update(ex, self, args, kw):
 @lib("sys", "exit")
 def sys_exit(ex, args, kw):
     raise SymRaise("SystemExit", args[0] if args else None)
+
+
+# ---------------------------------------------------------------------------------------------------------
+# iterators (x.__iter__(), it.__next__(), iter(), next())
+
+
+def _seq_len(seq):
+    return len(seq) if isinstance(seq, (list, tuple)) else seq.length
+
+
+@method(["list", "tuple", "SymSeq"], "__iter__")
+def seq_iter(ex, self, args, kw):
+    return SeqIter(self, 0)
+
+
+@method("SeqIter", "__iter__")
+def iter_iter(ex, self, args, kw):
+    return self
+
+
+@method("SeqIter", "__next__")
+def iter_next(ex, self, args, kw):
+    n = _seq_len(self.seq)
+    if isinstance(n, int) and isinstance(self.pos, int):
+        if self.pos >= n:
+            raise SymRaise("StopIteration", "")
+        v = self.seq[self.pos]
+        self.pos += 1
+        return v
+    if not ex.ctx.branch(to_z3(self.pos) < to_z3(n)):
+        raise SymRaise("StopIteration", "")
+    v = self.seq[self.pos] if isinstance(self.seq, (list, tuple)) else self.seq.get(self.pos, ex)
+    self.pos = simp(to_z3(self.pos) + 1)
+    return v
+
+
+@builtin("iter")
+def bi_iter(ex, args, kw):
+    v = args[0]
+    if isinstance(v, SeqIter):
+        return v
+    it = ex.as_iterable(v)
+    return SeqIter(it, 0)
+
+
+@builtin("next")
+def bi_next(ex, args, kw):
+    if not isinstance(args[0], SeqIter):
+        raise Unsupported("next() of a non-iterator")
+    try:
+        return iter_next(ex, args[0], [], {})
+    except SymRaise as e:
+        if e.etype == "StopIteration" and len(args) > 1:
+            return args[1]
+        raise
